@@ -68,6 +68,8 @@ ObsClauses(O, e) ==
           THEN {} ELSE {"C13_obs_get_group"})
  \cup (IF has = {v \in ObsU : GLContains(O, Alias(v))} THEN {} ELSE {"C13_obs_contains"})
  \cup (IF GLRng(vals) = GLValues(O) /\ Len(vals) = Cardinality(GLValues(O)) THEN {} ELSE {"C13_obs_values"})
+ \* get_repr() is outside the statement of C13: judged as conformance (reported, never an alarm)
+ \cup (IF "rep" \notin DOMAIN e \/ e.rep = GLRepr(O) THEN {} ELSE {"Conf_obs_repr"})
 
 Judge(P, e) ==
   LET O == ObsState(e) IN
